@@ -455,3 +455,59 @@ def check_c11(tier, solver_stream=None):
         solver_stream(chk, rng, tier)
     chk.assumptions = ["SimpleFringe = binary_heap_plus::BinaryHeap (external crate): specified by the abstract priority queue, tested, not modelled"]
     return chk.finish()
+
+
+def c10_solver_stream(chk, rng, tier):
+    """solver-level clause of C10: enabling an admissible dominance rule never changes the optimum (vs rule off vs exhaustive enumeration),
+    plus the diagram-level correspondence with the dominance store (and cache) shared across compilations"""
+    import check_mdd, check_solve
+    from gen import gen_layered
+    # (1) diagram level, as the solvers use the stores
+    st = check_mdd.Stream(chk, tier, types=(2, 1), widths=(1, 2, 3), flavours=(0, 1, 2), ninst=(40 if tier == "quick" else 400), stores=True)
+    st.meta = [(I, m) for (I, m) in st.meta]
+    res = st.run()
+    ag, ds = check_mdd.correspondence(chk, res, ["status", "cx", "cv", "x", "bv", "ev", "CS", "DOT", "LOG"])
+    ndq = sum(li.count("DQ ") for _, rows in res for _, li, _, _ in rows)
+    ndom = sum(li.count("-> 1 ") for _, rows in res for _, li, _, _ in rows)
+    # (2) solver level
+    insts = []
+    for i in range(60 if tier == "quick" else 600):
+        r = rng.fork()
+        insts.append(gen_layered(r, nvars=r.range(4, 7), per_layer=r.range(2, 4), dom_max=r.range(2, 3), dominance=r.choice([1, 2]), rub=r.choice([0, 1, 3])))
+    blocks = []
+    for I in insts:
+        lines = [I.line()]
+        for flv in (0, 1, 2):
+            for cache in (0, 1):
+                for fr in (0, 1):
+                    for w in (1, 2):
+                        for dom in (0, 1):
+                            lines.append(check_solve.sline(0, 1, 1, flv, cache, fr, w, 0, dom))
+        blocks.append(lines)
+    impl = check_solve.run_blocks("impl", blocks, "c10s")
+    model = check_solve.run_blocks("model", blocks, "c10s")
+    opts = check_mdd.oracle_batch([(I.line(), ["O opt"]) for I in insts])
+    runs = 0; sag = 0; sdis = []
+    for I, blk, il, ml, op in zip(insts, blocks, impl, model, opts):
+        for case, li, lm in zip(blk[1:], il, ml):
+            runs += 1
+            f = check_solve.kv(li); fm = check_solve.kv(lm)
+            ctx = check_solve.describe(I, case, li, lm, optimum=op[0])
+            if "CRASH" in f or "HANG" in f or f.get("x") != "1" or f.get("bv") != op[0]:
+                chk.violation("property", "with%s the dominance checker the solver returns %s (exact=%s); optimum by exhaustive enumeration is %s (%s)"
+                              % ("" if case.split()[9] == "1" else "out", f.get("bv"), f.get("x"), op[0], case), ctx)
+            keys = ["x", "bv", "lb", "ub"] + ([] if fm.get("tie") == "1" else ["explored", "polls"])
+            if all(f.get(k) == fm.get(k) for k in keys): sag += 1
+            else: sdis.append((I, case, li, lm))
+    chk.cov["solver_level"] = {"runs": runs, "agreements_model_vs_impl": sag, "disagreements": len(sdis),
+                               "diagram_level_compilations": sum(len(r) for _, r in res), "diagram_level_agreements": ag,
+                               "diagram_level_disagreements": len(ds), "dominance_queries_compared": ndq, "dominated_verdicts": ndom}
+    if (ds or sdis) and not any(v[0] == "property" for v in chk.violations):
+        if ds:
+            (I, meta, li, lm, case, why) = ds[0]
+            chk.violation("unproved", "correspondence with the dominance store in the loop: diagram model and code differ on %s (%s)" % (why, case),
+                          {"instance": I.line(), "case": case, "impl": li[:1500], "model": lm[:1500]})
+        else:
+            (I, case, li, lm) = sdis[0]
+            chk.violation("unproved", "correspondence: solver model and code differ with dominance enabled (%s)" % case,
+                          {"instance": I.line(), "case": case, "impl": li, "model": lm})
